@@ -27,6 +27,7 @@ type ChainSpec struct {
 	NonCommit  float64 `json:"p_non_commit_slot"`
 	FailedProb float64 `json:"p_failed_round0"` // heights decided in round 1 after a round 0 in which honest validators precommitted nil
 	ForceFail  []int   `json:"force_failed_round0_steps,omitempty"`
+	MinQuorum  bool    `json:"minimal_quorum_commits,omitempty"` // canonical commits carry exactly floor(2*total/3)+1 for-block power where a subset of the set sums to it
 }
 
 // BehAt is what a liar does when asked for height H.
@@ -42,6 +43,7 @@ type BehAt struct {
 type PeerSpec struct {
 	Name   string  `json:"name"`
 	Honest bool    `json:"honest"`
+	Late   bool    `json:"connects_after_first_drop,omitempty"`
 	Base   int64   `json:"base"`
 	Height int64   `json:"height"` // claimed in StatusResponse
 	Beh    []BehAt `json:"beh,omitempty"`
@@ -75,32 +77,55 @@ func (p *PeerSpec) beh(h int64) BehAt {
 }
 
 // classOf fixes the class of every case index (fixed-length lists per tier).
-var classPattern = []string{"control", "tip", "tip", "mixed", "nilfork", "tip", "inflated", "mixed", "tip", "mixed",
-	"control", "tip", "mixed", "inflated", "nilfork"}
+var classPattern = []string{"control", "tip", "quorum", "mixed", "nilfork", "tip", "inflated", "second", "tip", "mixed",
+	"control", "quorum", "mixed", "inflated", "nilfork", "second", "tip", "mixed", "quorum", "second"}
 
-func classOf(tier string, idx int) string {
-	if tier == "thorough" && idx%10 == 9 {
-		return "timeout"
-	}
-	return classPattern[idx%len(classPattern)]
-}
+// the quick tier's v1 / v2 cases
+var otherVersionsPattern = []string{"quorum", "second", "second", "quorum", "second", "nilfork", "tip", "second", "quorum", "mixed"}
 
-// The deciding target is v0 (indexes below nV0).  In the thorough tier the same peers also drive
-// v1 and v2, judged by the store / execution / hand-over oracles only.
+// The deciding target is v0.  The same peers also drive v1 and v2: a few cases of the boundary /
+// second-block / fork classes in the quick tier, the whole pattern in the thorough tier.
 const (
+	nV0Quick    = 120
+	nV1Quick    = 30
+	nV2Quick    = 20
 	nV0Thorough = 2000
 	nV1Thorough = 300
 	nV2Thorough = 300
 )
 
-func versionOf(idx int) string {
+func nCases(tier string) int {
+	if tier == "thorough" {
+		return nV0Thorough + nV1Thorough + nV2Thorough
+	}
+	return nV0Quick + nV1Quick + nV2Quick
+}
+
+func versionOf(tier string, idx int) string {
+	a, b := nV0Quick, nV0Quick+nV1Quick
+	if tier == "thorough" {
+		a, b = nV0Thorough, nV0Thorough+nV1Thorough
+	}
 	switch {
-	case idx < nV0Thorough:
+	case idx < a:
 		return "v0"
-	case idx < nV0Thorough+nV1Thorough:
+	case idx < b:
 		return "v1"
 	}
 	return "v2"
+}
+
+func classOf(tier string, idx int) string {
+	if tier == "thorough" {
+		if idx%10 == 9 {
+			return "timeout"
+		}
+		return classPattern[idx%len(classPattern)]
+	}
+	if idx >= nV0Quick {
+		return otherVersionsPattern[idx%len(otherVersionsPattern)]
+	}
+	return classPattern[idx%len(classPattern)]
 }
 
 func tipOrdinal(tier string, idx int) int {
@@ -171,6 +196,9 @@ func buildChain(sp ChainSpec) *world {
 			}
 		}
 		flags := pickFlags(r, vals, sp.NonCommit)
+		if sp.MinQuorum {
+			flags = minimalQuorumFlags(r, vals)
+		}
 		round := int32(0)
 		if r.Float64() < sp.FailedProb {
 			round = 1
@@ -281,6 +309,109 @@ func pickFlags(r *rand.Rand, vals *types.ValidatorSet, p float64) []types.BlockI
 		}
 	}
 	return flags
+}
+
+// subsetWithPower picks, among the candidate indexes, a subset whose powers sum to exactly target
+// (a random one of the solutions); if there is none, the subset with the largest sum below target
+// (atLeast=false) or the smallest sum above it (atLeast=true).
+func subsetWithPower(r *rand.Rand, vals *types.ValidatorSet, cand []int, target int64, atLeast bool) (set map[int]bool, sum int64) {
+	n := len(cand)
+	if n > 16 {
+		cand, n = cand[:16], 16
+	}
+	var exact []int
+	best, bestSum := -1, int64(-1)
+	for m := 0; m < 1<<uint(n); m++ {
+		var sm int64
+		for j := 0; j < n; j++ {
+			if m>>uint(j)&1 == 1 {
+				sm += vals.Validators[cand[j]].VotingPower
+			}
+		}
+		switch {
+		case sm == target:
+			exact = append(exact, m)
+		case atLeast && sm > target && (best < 0 || sm < bestSum):
+			best, bestSum = m, sm
+		case !atLeast && sm < target && sm > bestSum:
+			best, bestSum = m, sm
+		}
+	}
+	if len(exact) > 0 {
+		best, bestSum = exact[r.Intn(len(exact))], target
+	}
+	set = map[int]bool{}
+	for j := 0; j < n; j++ {
+		if best >= 0 && best>>uint(j)&1 == 1 {
+			set[cand[j]] = true
+		}
+	}
+	if best < 0 {
+		bestSum = 0
+	}
+	return set, bestSum
+}
+
+// minimalQuorumFlags: the commit carries exactly floor(2*total/3)+1 for-block power if some subset
+// of the set sums to it (the smallest power above it otherwise).
+func minimalQuorumFlags(r *rand.Rand, vals *types.ValidatorSet) []types.BlockIDFlag {
+	var total int64
+	all := make([]int, vals.Size())
+	for i, v := range vals.Validators {
+		total += v.VotingPower
+		all[i] = i
+	}
+	set, _ := subsetWithPower(r, vals, all, 2*total/3+1, true)
+	flags := make([]types.BlockIDFlag, vals.Size())
+	for i := range flags {
+		switch {
+		case set[i]:
+			flags[i] = types.BlockIDFlagCommit
+		case r.Intn(2) == 0:
+			flags[i] = types.BlockIDFlagAbsent
+		default:
+			flags[i] = types.BlockIDFlagNil
+		}
+	}
+	return flags
+}
+
+// quorumTarget: the for-block power of a boundary commit (never more than two thirds of the total).
+func quorumTarget(total, variant int64) int64 {
+	fl := 2 * total / 3
+	t := fl
+	switch variant {
+	case 1:
+		t = fl - 1
+	case 2:
+		t = total / 3 * 2
+	case 3:
+		t = total/3*2 + 1
+	}
+	if t > fl || t < 1 {
+		t = fl
+	}
+	return t
+}
+
+// invalidating alterations: every one of them leaves a non-absent slot whose signature does not
+// verify for what the slot claims
+var invalidatingOps = map[string]bool{"forge": true, "tsShift": true, "dup": true, "flagNil": true, "fRound": true, "fOtherBlock": true,
+	"nilAsCommit": true, "nilGarbage": true, "absentForgedCommit": true, "absentForgedNil": true}
+
+func (w *world) pickInvalidating(r *rand.Rand, g int64) (op string, slot int, tail bool) {
+	for i := 0; i < 40; i++ {
+		op, slot, tail = w.pickAlteration(r, g, allOps[r.Intn(len(allOps))], r.Intn(3)-1)
+		if invalidatingOps[op] && !(op == "dup" && w.rec(g).StateBefore.Validators.Size() < 2) {
+			return
+		}
+	}
+	for i, sg := range w.rec(g).Commit.Signatures {
+		if sg.BlockIDFlag == types.BlockIDFlagCommit {
+			return "forge", i, false
+		}
+	}
+	return "forge", 0, false
 }
 
 // lightPrefixEnd: index of the slot at which a tally that walks the commit-flagged slots in index
@@ -409,7 +540,7 @@ func setBeh(beh []BehAt, b BehAt) []BehAt {
 
 func genScenario(c *verdict.Ctx, idx int) (*Scenario, *world) {
 	r := c.Rand("scenario", idx)
-	sc := &Scenario{Index: idx, Tier: c.Tier, Class: classOf(c.Tier, idx), Version: versionOf(idx)}
+	sc := &Scenario{Index: idx, Tier: c.Tier, Class: classOf(c.Tier, idx), Version: versionOf(c.Tier, idx)}
 	n := 4 + r.Intn(4)
 	if sc.Class == "tip" {
 		n = []int{4, 4, 6, 7}[r.Intn(4)]
@@ -438,8 +569,51 @@ func genScenario(c *verdict.Ctx, idx int) (*Scenario, *world) {
 	if sc.Class == "tip" {
 		sc.Chain.NonCommit = []float64{0, 0.5, 0.9}[r.Intn(3)]
 	}
+	quorumStep := 0
+	if sc.Class == "quorum" {
+		// Validator sets at the quorum boundary: total power = 2 (mod 3) in three of five cases (5, 8,
+		// 11 equal validators of power 1, or small weights), = 0 and = 1 for contrast.
+		fam := r.Intn(5)
+		var pw []int64
+		if fam < 2 {
+			pw = make([]int64, []int{5, 8, 11}[r.Intn(3)])
+			for i := range pw {
+				pw[i] = 1
+			}
+		} else {
+			pw = make([]int64, 4+r.Intn(6))
+			var sum int64
+			for i := range pw {
+				pw[i] = int64(1 + r.Intn(4))
+				sum += pw[i]
+			}
+			want := int64(2)
+			if fam == 3 {
+				want = 0
+			} else if fam == 4 {
+				want = 1
+			}
+			for sum%3 != want {
+				pw[len(pw)-1]++
+				sum++
+			}
+		}
+		sc.Chain.Powers = pw
+		sc.Chain.ValChanges = false
+		sc.Chain.MinQuorum = r.Intn(3) != 0
+		quorumStep = 1 + r.Intn(sc.Chain.Len-2)
+		if r.Intn(2) == 0 {
+			quorumStep = sc.Chain.Len - 2
+		}
+		if r.Intn(2) == 0 {
+			sc.Chain.ForceFail = []int{quorumStep}
+		}
+	}
 	if r.Intn(6) == 0 {
 		sc.Chain.Initial = 2 + r.Int63n(30)
+	}
+	if sc.Version == "v2" && sc.Tier != "thorough" {
+		sc.Chain.Initial = 1 // v2 never syncs a chain whose initial height is above 1 (gives up after ~16 s); thorough tier only
 	}
 	w := buildChain(sc.Chain)
 	sc.First, sc.Last = w.first, w.last
@@ -514,6 +688,71 @@ func genScenario(c *verdict.Ctx, idx int) (*Scenario, *world) {
 		if sc.NodeStart >= g-1 {
 			sc.NodeStart = 0
 		}
+	case "quorum":
+		// As in "nilfork", the blocks at g and g+1 can only come from the liar.  The LastCommit of its
+		// block g+1 carries for-block power at the quorum boundary but never above two thirds: for a
+		// minority block X at g, signed by a coalition of exactly that power (fork), or for the
+		// canonical block at g, the canonical commit thinned down to that power (weak).
+		g := w.first + int64(quorumStep)
+		sc.Peers = append(sc.Peers, honest("h0", g-1))
+		if r.Intn(3) == 0 {
+			sc.Peers = append(sc.Peers, honest("h1", g-1))
+		}
+		p := PeerSpec{Name: "liar0", Base: w.first, Height: T}
+		if r.Intn(3) == 0 && g+1 < T {
+			p.Height = g + 1 + r.Int63n(T-g)
+		}
+		variant := int64(r.Intn(4))
+		if r.Intn(2) == 0 {
+			variant = 0
+		}
+		if r.Intn(3) == 0 {
+			p.Beh = []BehAt{{H: g + 1, Kind: "quorumWeak", Arg: variant, Slot: r.Intn(1 << 20)}}
+		} else {
+			p.Beh = []BehAt{{H: g, Kind: "forkBlock"}, {H: g + 1, Kind: "quorumFork", Arg: variant, Slot: r.Intn(1 << 20)}}
+		}
+		sc.Peers = append(sc.Peers, p)
+		if sc.NodeStart >= g-1 {
+			sc.NodeStart = 0
+		}
+	case "second":
+		// The bad block is the SECOND of the verified pair and comes from another peer than the first:
+		// honest A ends at k, hostile X serves k+1 (its base is k+1, or it is picked by assignment) with
+		// a tampered LastCommit whose hash is recomputed; an honest peer B with the whole chain connects
+		// after the first drop.
+		lo := w.first
+		if sc.NodeStart > 0 {
+			lo = sc.NodeStart + 1
+		}
+		k := lo + r.Int63n(T-1-lo)
+		a := honest("hA", k)
+		sc.Peers = append(sc.Peers, a)
+		if r.Intn(3) == 0 {
+			sc.Peers = append(sc.Peers, honest("hA2", k))
+		}
+		x := PeerSpec{Name: "liarX", Base: k + 1, Height: k + 1 + r.Int63n(T-k)}
+		if r.Intn(3) == 0 || sc.Version != "v0" {
+			x.Base = w.first
+		}
+		b := BehAt{H: k + 1, Kind: "altered"}
+		switch r.Intn(6) {
+		case 0:
+			b.Kind = "minority"
+		case 1:
+			b.Kind = "otherBlockCommit"
+		case 2:
+			b = BehAt{H: k + 1, Kind: "quorumWeak", Arg: int64(r.Intn(4)), Slot: r.Intn(1 << 20)}
+		default:
+			b.Op, b.Slot, b.Tail = w.pickInvalidating(r, k)
+		}
+		x.Beh = []BehAt{b}
+		sc.Peers = append(sc.Peers, x)
+		full := honest("hB", T)
+		// v1 and v2 declare themselves caught up the moment the peers they have left are no taller than
+		// their own height, and v1 also asks a peer for heights below its base: for them B is there from
+		// the start and X is picked by assignment
+		full.Late = sc.Version == "v0"
+		sc.Peers = append(sc.Peers, full)
 	case "mixed", "inflated", "timeout":
 		sc.Peers = append(sc.Peers, honest("h0", T))
 		if r.Intn(2) == 0 {
